@@ -248,6 +248,175 @@ inductive ReachableT (c : Cfg) : State → Prop where
   | init : ReachableT c (init c)
   | step {s a} : ReachableT c s → enabledT c s a = true → ReachableT c (stepT c s a)
 
+/-! ### phase 4: a larger independence table
+
+`wPut w`–`cGet` (both possible only when the out-queue is NOT empty: the caller takes the head, the worker appends at the end)
+and `loadPut`–`wGet w` (both possible only when the in-queue is neither empty nor full).  `step_comm2` proves that these pairs
+commute whenever both steps are possible, which is what the sleep-set enumeration needs: a sleeping thread was runnable when
+it fell asleep and stays so (commutation keeps it enabled). -/
+
+def indepExtra1 : Action → Action → Bool
+  | .wPut _, .cGet => true
+  | .loadPut, .wGet _ => true
+  | _, _ => false
+
+def indep2 (a b : Action) : Bool := indep a b || indepExtra1 a b || indepExtra1 b a
+
+/-! ### phase 4: fault extension — a worker process dies (exit code ≠ 0, `_main_err`)
+
+`filter_finished_or_failed` for a process whose `exitcode != 0`: no exception is recorded (nothing came through the pipe),
+`call._main_err = True; event.set()`, the lineage is NOT replaced, `_n_procs -= 1` and the out pill at zero — for `_n_procs`,
+`_exceptions` and the queues that is exactly what the callback does for a worker in state `exited true none`, so a crashed
+lineage is represented by that base state plus the mark `crashed` (the W state "crashed": process gone, callback pending).
+After `event.wait()` the caller looks at `_main_err` ONCE: if set it starts no further process and goes straight to `finally`.
+What the dead process had not yet put (and the error it was about to raise) is lost: ghost `lostOuts`/`lostErrs`.
+`budget` = number of faults the environment may still inject (any finite fault sequence: the theorems are for every budget). -/
+
+structure FState where
+  b        : State
+  mainErr  : Bool          -- `call._main_err`
+  crashed  : List Nat      -- lineages whose process died and whose callback has not run yet
+  budget   : Nat           -- faults still to come
+  lostOuts : List Nat      -- ghost: outputs the dead processes still held
+  lostErrs : List Nat      -- ghost: errors the dead processes were about to raise
+  skipped  : Bool          -- the caller found `_main_err` set after `event.wait()`
+deriving Repr, DecidableEq
+
+inductive ActionF where
+  | base (a : Action)
+  | wCrash (w : Nat)
+deriving Repr, DecidableEq
+
+def initF (c : Cfg) (faults : Nat) : FState :=
+  { b := init c, mainErr := false, crashed := [], budget := faults, lostOuts := [], lostErrs := [], skipped := false }
+
+/-- has lineage `w`'s current process been started?  (lineage 0 before `event.wait()`, the others after it unless skipped) -/
+def startedF (s : FState) (w : Nat) : Bool := (w == 0 || s.b.main != .waitEvent) && (!s.skipped || w == 0)
+
+def enabledF (c : Cfg) (s : FState) : ActionF → Bool
+  | .base (.wBegin w) => enabled c s.b (.wBegin w) && startedF s w
+  | .base a => enabled c s.b a
+  | .wCrash w => decide (0 < s.budget) &&
+      (match s.b.ws[w]? with
+       | some (.run _ _ _) => true
+       | some .spawned => startedF s w
+       | _ => false)
+
+def stepF (c : Cfg) (s : FState) : ActionF → FState
+  | .base (.wCallback w) =>
+      if s.crashed.contains w then
+        { s with b := { step c s.b (.wCallback w) with event := true }, mainErr := true, crashed := s.crashed.erase w }
+      else { s with b := step c s.b (.wCallback w) }
+  | .base .mEvent =>
+      if s.mainErr then { s with b := { s.b with main := .fin }, skipped := true }
+      else { s with b := step c s.b .mEvent }
+  | .base a => { s with b := step c s.b a }
+  | .wCrash w =>
+      match s.b.ws[w]? with
+      | some (.run _ pend e) =>
+          { s with b := { s.b with ws := s.b.ws.set w (.exited true none) }, crashed := w :: s.crashed, budget := s.budget - 1,
+                   lostOuts := s.lostOuts ++ pend, lostErrs := s.lostErrs ++ e.toList }
+      | some .spawned =>
+          { s with b := { s.b with ws := s.b.ws.set w (.exited true none) }, crashed := w :: s.crashed, budget := s.budget - 1 }
+      | _ => s
+
+def runTraceF (c : Cfg) : FState → List ActionF → Option FState
+  | s, [] => some s
+  | s, a :: as => if enabledF c s a then runTraceF c (stepF c s a) as else none
+
+inductive ReachableF (c : Cfg) (faults : Nat) : FState → Prop where
+  | init : ReachableF c faults (initF c faults)
+  | step {s a} : ReachableF c faults s → enabledF c s a = true → ReachableF c faults (stepF c s a)
+
+/-- "no incarnation has taken more than `m` items" as a predicate of its own (it is inductive without the rest of `Inv`) -/
+def maxTasksOk (c : Cfg) (s : State) : Bool :=
+  s.ws.all (fun x => match x with | .run k _ _ => c.m == 0 || k ≤ c.m | _ => true)
+
+/-! ### phase 4: `read_wait=True`
+
+`MyProcessLine.run`: after the line has ended (pill, error or `Slice` exhausted) the process writes its `UniqueKey` to the
+out-queue and waits on its own event; the caller, when it reads a `UniqueKey` from the out-queue, sets that event instead of
+yielding the value; only then does the process exit and its callback run.  So a process is gone only after the caller has
+read everything the process put before its key.  Layered over the base system: `routq` is the out-queue INCLUDING keys
+(`b.outq` is what is left when the keys are removed), `keyPending` = line ended, key not yet written, `keyWait` = key written,
+waiting for the caller (the W state "keyWait").  The base steps are unchanged; `wCallback w` has to wait until lineage `w` is
+neither in `keyPending` nor in `keyWait`, and the caller's `cGet`/`drainOut` apply when the head of `routq` is not a key. -/
+
+inductive ROut where
+  | val (o : Nat) | pill | key (w : Nat)
+deriving Repr, DecidableEq
+
+def ROut.lift : Option Nat → ROut
+  | some o => .val o
+  | none => .pill
+
+def ROut.proj : ROut → Option (Option Nat)
+  | .val o => some (some o)
+  | .pill => some none
+  | .key _ => none
+
+structure RState where
+  b          : State
+  routq      : List ROut
+  keyPending : List Nat
+  keyWait    : List Nat
+deriving Repr, DecidableEq
+
+inductive ActionR where
+  | base (a : Action)
+  | wKey (w : Nat)      -- the process writes its key
+  | cKey                -- the caller reads a key and sets that process' event (the process exits)
+  | drainKey            -- the `finally` block throws a key away
+deriving Repr, DecidableEq
+
+def initR (c : Cfg) : RState := { b := init c, routq := [], keyPending := [], keyWait := [] }
+
+def isKeyHead : List ROut → Bool
+  | .key _ :: _ => true
+  | _ => false
+
+/-- the lineage whose line ends by this base step (pill taken, error, `Slice` exhausted) -/
+def lineEnds (s : State) : Action → Option Nat
+  | .wRaise w => some w
+  | .wRetire w => some w
+  | .wGet w => (match s.inq with | none :: _ => some w | _ => none)
+  | _ => none
+
+/-- follow the base out-queue: an element taken from the head, or the elements appended at the end -/
+def syncOut (old new : List (Option Nat)) (r : List ROut) : List ROut :=
+  if new.length < old.length then r.drop 1 else r ++ (new.drop old.length).map ROut.lift
+
+def enabledR (c : Cfg) (s : RState) : ActionR → Bool
+  | .base (.wCallback w) => enabled c s.b (.wCallback w) && !s.keyPending.contains w && !s.keyWait.contains w
+  | .base .cGet => enabled c s.b .cGet && !isKeyHead s.routq
+  | .base .drainOut => enabled c s.b .drainOut && !isKeyHead s.routq
+  | .base a => enabled c s.b a
+  | .wKey w => s.keyPending.contains w
+  | .cKey => s.b.main == .consuming && isKeyHead s.routq
+  | .drainKey => s.b.main == .fin && isKeyHead s.routq
+
+def stepR (c : Cfg) (rw : Bool) (s : RState) : ActionR → RState
+  | .base a =>
+      let b' := step c s.b a
+      { s with b := b', routq := syncOut s.b.outq b'.outq s.routq,
+               keyPending := (match rw, lineEnds s.b a with
+                              | true, some w => w :: s.keyPending
+                              | _, _ => s.keyPending) }
+  | .wKey w => { s with routq := s.routq ++ [.key w], keyPending := s.keyPending.erase w, keyWait := w :: s.keyWait }
+  | .cKey =>
+      match s.routq with
+      | .key w :: rest => { s with routq := rest, keyWait := s.keyWait.filter (· != w) }
+      | _ => s
+  | .drainKey => { s with routq := s.routq.drop 1 }
+
+def runTraceR (c : Cfg) (rw : Bool) : RState → List ActionR → Option RState
+  | s, [] => some s
+  | s, a :: as => if enabledR c s a then runTraceR c rw (stepR c rw s a) as else none
+
+inductive ReachableR (c : Cfg) (rw : Bool) : RState → Prop where
+  | init : ReachableR c rw (initR c)
+  | step {s a} : ReachableR c rw s → enabledR c s a = true → ReachableR c rw (stepR c rw s a)
+
 /-! ### what the caller observes -/
 
 
@@ -383,6 +552,12 @@ def mu (c : Cfg) (s : State) : Nat :=
   + listSum (s.ws.map (wPot c))
   + (if s.lphase then 0 else 1 + 5 * s.nprocs)
   + phasePot s.main
+
+/-- the termination measure with faults: every fault costs the environment one unit of its budget -/
+def muF (c : Cfg) (s : FState) : Nat := mu c s.b + 3 * s.budget
+
+/-- the termination measure with `read_wait` -/
+def muR (c : Cfg) (s : RState) : Nat := 6 * mu c s.b + 4 * s.keyPending.length + 2 * s.keyWait.length + s.routq.length
 
 /-! ### the in-process path (`n_processes == 1 and maxtasksperchild == 0`): `Foreach` -/
 
